@@ -38,6 +38,7 @@ type ctlState struct {
 	everUserStartDuringRecovery                  bool
 	dstNacks, dlqRejects, procErrors, stuckCalls int
 	restartInProgress                            bool // an automatic restart has begun and the pipeline is not yet reported running again
+	forceStopIssued                              bool // a force stop request has been issued at some time in this run
 }
 
 func newCtlState() *ctlState {
@@ -148,6 +149,9 @@ func (o *Oracles) onControlEvent(w *World, e *Event) {
 		st, _, _ := w.db.durableStatus(PipelineID)
 		c.statusAtCall[e.Ent] = st
 		c.runAtCall[e.Ent] = len(c.runStartStep)
+		if op == "forcestop" {
+			c.forceStopIssued = true
+		}
 		if op == "start" {
 			if c.recoveringAt >= 0 {
 				c.userStartSinceRecovering = true
